@@ -46,6 +46,7 @@ type Exec struct {
 	noOverflow bool
 	maxPaths  int
 	block     *BlockSpec
+	oldHeapOf map[*Term]map[string]*Term
 	recFuncs  map[string]*recFuncInfo
 	recOrder  []string
 }
@@ -150,15 +151,13 @@ func (x *Exec) heapRefsBounded(h *Term, elem types.Type, alloc *Term) []*Term {
 	r := Atom(fmt.Sprintf("r!w%d", x.counter), SInt)
 	i := Atom(fmt.Sprintf("i!w%d", x.counter), SInt)
 	cell := App("select", x.ti.SortOf(elem), App("select", ArraySort(SInt, x.ti.SortOf(elem)), h, r), i)
-	refs := x.refTerms(cell, elem, 0)
-	if len(refs) == 0 {
+	// typing facts of every stored value (slice shape, integer ranges, reference bounds)
+	conj := x.ti.WFHeap(cell, elem, alloc)
+	body := And(conj...)
+	if body.IsTrue() {
 		return nil
 	}
-	var conj []*Term
-	for _, rt := range refs {
-		conj = append(conj, Le(IntLit(0), rt), Le(rt, alloc))
-	}
-	return []*Term{{Op: "forall", Sort: SBool, Bound: []*Term{r, i}, Args: []*Term{And(conj...)}, Pats: []*Term{cell}}}
+	return []*Term{{Op: "forall", Sort: SBool, Bound: []*Term{r, i}, Args: []*Term{body}, Pats: []*Term{cell}}}
 }
 
 func (x *Exec) heapByKey(st *State, key string, sort Sort) *Term {
@@ -685,6 +684,18 @@ func (x *Exec) havocLoop(st *State, fr *Frame, li *loopInfo) {
 		}
 		st.cells[c] = x.freshValue(st, "lv_"+c.name, c.ty)
 	}
+	if li.rangeIter != nil {
+		if it, ok := fr.regs[li.rangeIter].(IterV); ok {
+			if it.MapT != nil {
+				ks := x.ti.SortOf(it.MapT.Key())
+				st.cells[it.Cell] = TV{x.fresh("visited", ArraySort(ks, SBool)), nil}
+			} else {
+				pos := x.fresh("iterpos", SInt)
+				st.assume(Le(IntLit(0), pos), Le(pos, App("slen", SInt, it.Str)))
+				st.cells[it.Cell] = TV{pos, types.Typ[types.Int]}
+			}
+		}
+	}
 	if len(li.heapKeys) > 0 || li.allocates {
 		before := st.alloc
 		if li.allocates {
@@ -720,13 +731,22 @@ func (x *Exec) loopEnv(st *State, fr *Frame, li *loopInfo) *Env {
 			}
 		}
 		if li.rangeIter != nil {
-			if it, ok := fr.regs[li.rangeIter].(IterV); ok {
+			if it, ok := fr.regs[li.rangeIter].(IterV); ok && it.MapT == nil {
 				if tv, ok := st.cells[it.Cell].(TV); ok {
 					return tv.T
 				}
 			}
 		}
-		unsup("idx() used in a loop that is not a range loop")
+		unsup("idx() used in a loop that is not a slice or string range loop")
+		return nil
+	}
+	env.visited = func() *Term {
+		if li.rangeIter != nil {
+			if it, ok := fr.regs[li.rangeIter].(IterV); ok && it.MapT != nil {
+				return st.cells[it.Cell].(TV).T
+			}
+		}
+		unsup("visited() used in a loop that is not a map range loop")
 		return nil
 	}
 	return env
@@ -912,8 +932,15 @@ func (x *Exec) step(st *State, fr *Frame, instr ssa.Instruction) []*State {
 	case *ssa.Range:
 		sv := x.val(st, in.X)
 		tv, ok := sv.(TV)
+		if mt, isMap := in.X.Type().Underlying().(*types.Map); ok && isMap {
+			ks := x.ti.SortOf(mt.Key())
+			c := x.newCell(st, nil, nil, "visited")
+			st.cells[c] = TV{ConstArray(ArraySort(ks, SBool), False), nil}
+			fr.regs[in] = IterV{Map: tv.T, MapT: mt, Cell: c}
+			return nil
+		}
 		if !ok || tv.T.Sort != SStr {
-			unsup("range over %s (only strings are iterated via Range)", in.X.Type())
+			unsup("range over %s (only strings and maps are iterated via Range)", in.X.Type())
 		}
 		c := x.newCell(st, nil, types.Typ[types.Int], "iterpos")
 		st.cells[c] = TV{IntLit(0), types.Typ[types.Int]}
@@ -1657,6 +1684,9 @@ func (x *Exec) mapDelete(st *State, mt *types.Map, ref, key *Term) {
 
 func (x *Exec) next(st *State, fr *Frame, in *ssa.Next) []*State {
 	it, ok := x.val(st, in.Iter).(IterV)
+	if ok && it.MapT != nil {
+		return x.nextMap(st, fr, in, it)
+	}
 	if !ok || !in.IsString {
 		unsup("next on non-string iterator")
 	}
@@ -1724,4 +1754,29 @@ func (x *Exec) compactHeaps(st *State) {
 		st.hyps = append(st.hyps, App("=", SBool, n, h))
 		st.heap[key] = n
 	}
+}
+
+// nextMap: one step of a map iteration.  Go visits every key that is in the
+// map when it is reached and has not been visited; keys deleted before being
+// reached are skipped; the order is unspecified.  The iterator carries the set
+// of visited keys; ok is false exactly when no unvisited key remains.
+func (x *Exec) nextMap(st *State, fr *Frame, in *ssa.Next, it IterV) []*State {
+	mt := it.MapT
+	ks := x.ti.SortOf(mt.Key())
+	_, _, _, dom, val, _ := x.mapHeaps(st, mt)
+	visited := st.cells[it.Cell].(TV).T
+	ok := x.fresh("mapnext_ok", SBool)
+	k := x.fresh("mapnext_k", ks)
+	isNil := Eq(it.Map, IntLit(0))
+	inDom := func(key *Term) *Term { return And(Not(isNil), Select(Select(dom, it.Map), key)) }
+	x.counter++
+	q := Atom(fmt.Sprintf("k!m%d", x.counter), ks)
+	st.assume(Implies(ok, And(inDom(k), Not(Select(visited, k)))))
+	st.assume(Implies(Not(ok), &Term{Op: "forall", Sort: SBool, Bound: []*Term{q}, Args: []*Term{Implies(inDom(q), Select(visited, q))}}))
+	st.assume(x.ti.WF(k, mt.Key(), st.alloc)...)
+	v := Select(Select(val, it.Map), k)
+	st.assume(Implies(ok, And(x.ti.WF(v, mt.Elem(), st.alloc)...)))
+	st.cells[it.Cell] = TV{Ite(ok, Store(visited, k, True), visited), nil}
+	fr.regs[in] = Tuple{TV{ok, types.Typ[types.Bool]}, TV{k, mt.Key()}, TV{v, mt.Elem()}}
+	return nil
 }
